@@ -125,7 +125,11 @@ def counting_gen(n, ret=None, fail_at=None):
 
 _CONSTS = [0, 1, 2, 7, -3, 'a', 'bc', (1, 2), None]
 _FNS = ['add', 'cat', 'mk_list', 'mk_dict', 'div', 'boom', 'box_times', 'box_item',
-        'box_attr', 'box_call', 'box_child_attr', 'box_fail']
+        'box_attr', 'box_call', 'box_child_attr', 'box_fail',
+        # values that ARE exception instances (returned, not raised)
+        'mk_exc', 'exc_ctor', 'first_error']
+_EXC_KINDS = ['value', 'key', 'app', 'runtime', 'stop', 'timeout', 'lookup', 'os']
+_EXC_CTORS = ['ValueError', 'KeyError', 'RuntimeError', 'StopIteration', 'LookupError']
 
 
 def gen_expr(rng: random.Random, depth: int):
@@ -151,6 +155,19 @@ def gen_expr(rng: random.Random, depth: int):
   if fn == 'boom':
     return ['call', 'boom', [], {'kind': ['const', rng.choice(['value', 'key', 'type', 'app', 'runtime', 'zero', 'timeout', 'conn'])],
                                  'msg': ['const', rng.choice(['bad', 'x y', ''])]}, False]
+  if fn == 'mk_exc':
+    return ['call', 'mk_exc', [], {'kind': ['const', rng.choice(_EXC_KINDS)],
+                                   'msg': ['const', rng.choice(['bad', 'x y', 'k'])]}, cache]
+  if fn == 'exc_ctor':
+    # the exception class itself is the traced callable: trace(ValueError)('boom')
+    return ['call', rng.choice(_EXC_CTORS), [['const', rng.choice(['boom', 'k', 'x y'])]], {}, False]
+  if fn == 'first_error':
+    items = [['const', rng.choice([0, 1, 'a'])] for _ in range(rng.randint(0, 2))]
+    if rng.random() < 0.8:
+      items.insert(rng.randint(0, len(items)),
+                   ['call', 'mk_exc', [], {'kind': ['const', rng.choice(_EXC_KINDS)],
+                                           'msg': ['const', rng.choice(['bad', 'k'])]}, False])
+    return ['call', 'first_error', [['call', 'mk_list', items, {}, False]], {}, False]
   box = ['call', 'Box', [num(), ['call', 'mk_list', [['const', c] for c in rng.sample([1, 2, 3, 'q'], rng.randint(0, 3))], {}, False]], {}, False]
   if fn == 'box_times':
     return ['method', box, 'times', [num()], {}]
@@ -172,10 +189,18 @@ def sub_num(rng, depth):
 
 
 _TABLE = {'add': add, 'cat': cat, 'mk_list': mk_list, 'mk_dict': mk_dict,
-          'div': div, 'boom': boom, 'Box': Box}
+          'div': div, 'boom': boom, 'Box': Box,
+          'ValueError': ValueError, 'KeyError': KeyError, 'RuntimeError': RuntimeError,
+          'StopIteration': StopIteration, 'LookupError': LookupError}
+
+
+def _late_table():
+  _TABLE.setdefault('mk_exc', mk_exc)
+  _TABLE.setdefault('first_error', first_error)
 
 
 def eval_eager(spec):
+  _late_table()
   kind = spec[0]
   if kind == 'const':
     return spec[1]
@@ -199,6 +224,7 @@ def eval_eager(spec):
 
 
 def build_lazy(spec, lazy_fns):
+  _late_table()
   kind = spec[0]
   if kind == 'const':
     return spec[1]
@@ -236,3 +262,210 @@ def expr_depth(spec):
     elif isinstance(x, dict):
       subs.extend(expr_depth(y) for y in x.values())
   return 1 + max(subs, default=0)
+
+
+# ---------------------------------------------------------------------------
+# Exceptions as VALUES (returned / yielded, never raised)
+# ---------------------------------------------------------------------------
+
+_EXC_TYPES = {'value': ValueError, 'key': KeyError, 'app': AppError, 'runtime': RuntimeError,
+              'stop': StopIteration, 'timeout': TimeoutError, 'lookup': LookupError,
+              'os': OSError}
+
+
+def mk_exc(kind='value', msg='bad'):
+  """Returns (does not raise) an exception instance, e.g. an error collected as data."""
+  return _EXC_TYPES[kind](msg)
+
+
+def first_error(xs):
+  """Returns the first exception instance found in xs (or None)."""
+  return next((x for x in xs if isinstance(x, BaseException)), None)
+
+
+def decode_elem(e):
+  """Element spec -> element: plain JSON values, or ['exc', kind, msg] -> instance."""
+  if isinstance(e, list) and len(e) == 3 and e[0] == 'exc':
+    return mk_exc(e[1], e[2])
+  return e
+
+
+def elem_gen(elems, ret=None):
+  """A generator over decoded element specs (some may be exception instances)."""
+  for e in elems:
+    yield decode_elem(e)
+  return ret
+
+
+def elem_list(elems):
+  return [decode_elem(e) for e in elems]
+
+
+class ExcVal(tuple):
+  """Normal form of an exception instance that occurs as a VALUE: (type name, str)."""
+
+  def __repr__(self):
+    return f'<value {self[0]}({self[1]!r})>'
+
+
+def norm(v):
+  """Replaces exception instances inside a value by ExcVal (exceptions compare by identity)."""
+  if isinstance(v, BaseException):
+    return ExcVal((type(v).__name__, str(v)))
+  if isinstance(v, list):
+    return [norm(x) for x in v]
+  if isinstance(v, tuple) and type(v) is tuple:
+    return tuple(norm(x) for x in v)
+  if isinstance(v, dict):
+    return {k: norm(x) for k, x in v.items()}
+  return v
+
+
+# An exception class whose __init__ signature differs from its args (observation only).
+class QuotaError(Exception):
+
+  def __init__(self, user, limit):
+    super().__init__(f'user {user} exceeded quota {limit}')
+    self.user, self.limit = user, limit
+
+
+def boom_custom(user='u', limit=3):
+  raise QuotaError(user, limit)
+
+
+# ---------------------------------------------------------------------------
+# Sources for async_iter: construction succeeds / fails in different places
+# ---------------------------------------------------------------------------
+
+
+def open_source(kind='notfound', msg='no such dataset'):
+  """A data source that cannot be opened: raises while CONSTRUCTING the iterable."""
+  if kind == 'notfound':
+    raise FileNotFoundError(msg)
+  if kind == 'app':
+    raise AppError(msg)
+  if kind == 'key':
+    raise KeyError(msg)
+  raise ValueError(msg)
+
+
+class BadIterable:
+  """Constructed fine, but __iter__ raises."""
+
+  def __init__(self, msg='cannot iterate'):
+    self.msg = msg
+
+  def __iter__(self):
+    raise AppError(self.msg)
+
+
+# ---------------------------------------------------------------------------
+# Gated user callables: force two server handlers to overlap inside user code.
+# GATES[key] = {'lock', 'entered', 'go', ...}; client and server share the process.
+# ---------------------------------------------------------------------------
+
+import threading as _threading
+
+GATES = {}
+CONSTRUCTED = {}
+_COUNT_LOCK = _threading.Lock()
+
+
+def new_gate(key, **extra):
+  g = {'lock': _threading.Lock(), 'entered': 0, 'go': _threading.Event(), 'armed': True}
+  g.update(extra)
+  GATES[key] = g
+  CONSTRUCTED[key] = 0
+  return g
+
+
+def _pass_gate(key):
+  g = GATES.get(key)
+  if g is None or not g['armed']:
+    return
+  with g['lock']:
+    g['entered'] += 1
+  g['go'].wait(30)
+
+
+class GatedModel:
+  """A model whose loading takes a while (the thing people cache)."""
+
+  def __init__(self, key, start=0):
+    _pass_gate(key)
+    with _COUNT_LOCK:
+      CONSTRUCTED[key] = CONSTRUCTED.get(key, 0) + 1
+    self.n = start
+
+  def bump(self, k=1):
+    self.n += k
+    return self.n
+
+
+def gated_load(key, start=0):
+  """Function flavour of GatedModel (a loader function returning the model)."""
+  return GatedModel(key, start)
+
+
+class HashGate:
+  """A hashable config argument; hashing the armed victim passes the gate."""
+
+  def __init__(self, n, key):
+    self.n, self.key = n, key
+
+  def __hash__(self):
+    g = GATES.get(self.key)
+    if g is not None and g['armed'] and g.get('victim') == self.n:
+      _pass_gate(self.key)
+    return hash(('HashGate', self.n))
+
+  def __eq__(self, other):
+    return isinstance(other, HashGate) and other.n == self.n
+
+  def __repr__(self):
+    return f'HashGate({self.n})'
+
+
+def build_cfg(cfg, extra=0):
+  return ('built', cfg.n, extra)
+
+
+# ---------------------------------------------------------------------------
+# Callables / arguments that cloudpickle ships BY VALUE (new object per unpickle)
+# ---------------------------------------------------------------------------
+
+
+class Counter:
+  """Stateful object: bump() returns its own call number."""
+
+  def __init__(self, start=0):
+    self.n = start
+
+  def bump(self, k=1):
+    self.n += k
+    return self.n
+
+
+def byvalue_loader(kind, start=0):
+  """A loader callable that is not importable by name (pickled by value)."""
+  if kind == 'lambda':
+    return lambda: Counter(start)
+  if kind == 'closure':
+    def load_model():
+      return Counter(start)
+    return load_model
+  if kind == 'partial':
+    import functools
+    return functools.partial(Counter, start)
+  raise ValueError(kind)
+
+
+class PlainCfg:
+  """A config object with the default identity hash / eq."""
+
+  def __init__(self, start=0):
+    self.start = start
+
+
+def load_with_cfg(cfg=None, **kw):
+  return Counter((cfg or kw['cfg']).start)
